@@ -9,6 +9,7 @@
 // Understood statement forms (anything else is a broken tie, never a default):
 //   x, y := filepath.Split(path)          pure binding (directory / base name of path)
 //   t := f.Name()                         pure binding (name of the temp file)
+//   t := path + "…"                       pure binding (a fixed temp-file name derived from path)
 //   [v,] err (:=|=) <fs call>             call, sets err        (also `_, err = f.Write(target)`)
 //   <fs call>                             call, result ignored
 //   if err != nil { simple… }             ifErr   (no init, no else; body: calls and returns only)
@@ -16,7 +17,7 @@
 //   return | return err | return nil | return <fs call>
 // fs calls: os.Stat/os.Lstat(path), os.CreateTemp(dir(path), base(path)…), os.OpenFile, os.Create,
 //   os.WriteFile(name, target, perm) (= open O_WRONLY|O_CREATE|O_TRUNC; write; close), f.Write(target),
-//   f.Chmod(m), os.Chmod(name, m), f.Close(), os.Remove(name), os.Rename(a, b).
+//   f.Chmod(m), os.Chmod(name, m), f.Sync(), f.Close(), os.Remove(name), os.Rename(a, b).
 // Names: the `path` parameter -> Ref.path; f.Name() of the created file / one fixed expression built
 //   from path -> Ref.tmp.  Modes: integer literals, fi.Mode() / fi.Mode().Perm() of fi := os.Stat(path).
 //
